@@ -120,7 +120,7 @@ pub struct MT101 {
     pub field_25: Option<Field25NoOption>,
 
     /// Transaction details (Sequence B)
-    #[serde(rename = "#")]
+    #[serde(rename = "#", default)]
     pub transactions: Vec<MT101Transaction>,
 }
 
